@@ -162,11 +162,27 @@ static void *asm_mmap_file(char *asm_file, size_t *str_len) {
   FAIL_SYS(fd == -1, "failed to open file\n", MAP_FAILED);
   struct stat file_stat;
 
-  // NOLINTNEXTLINE
-  FAIL_SYS(fstat(fd, &file_stat), "failed to get file stats\n", MAP_FAILED);
-  // map file contents to a string
-  *str_len = file_stat.st_size;
-  void *str = mmap(NULL, *str_len, PROT_READ, MAP_PRIVATE, fd, 0);
+  if (fstat(fd, &file_stat)) {
+    close(fd);
+    // NOLINTNEXTLINE
+    FAIL_SYS(true, "failed to get file stats\n", MAP_FAILED);
+  }
+  // copy the file contents to a string with room for the terminator: a file
+  // mapping has none when the file size is a multiple of the page size, and
+  // an empty file cannot be mapped at all
+  *str_len = file_stat.st_size + 1;
+  char *str = mmap(NULL, *str_len, PROT_READ | PROT_WRITE,
+                   MAP_PRIVATE | MAP_ANONYMOUS, -1, 0);
+  size_t done = 0;
+  while (str != MAP_FAILED && done < (size_t)file_stat.st_size) {
+    ssize_t chunk = read(fd, str + done, file_stat.st_size - done);
+    if (chunk <= 0) {
+      munmap(str, *str_len);
+      str = MAP_FAILED;
+      break;
+    }
+    done += chunk;
+  }
   close(fd);
   return str;
 }
